@@ -1,9 +1,10 @@
 import Jwt.Lemmas.Policy
 import Jwt.Props.C02
+import Jwt.Props.C10
 /-!
 # C03 — unsigned tokens pass only when neither key nor algorithm is configured (checker side)
 
-The builder clauses (`C03_builder_*`) are in `Jwt/Props/C03b.lean`, over the builder model.
+The builder clauses (`C03_builder_*`) are below, over the builder model.
 -/
 namespace Jwt.Props.C03
 open Jwt
@@ -41,6 +42,62 @@ theorem C03_checker_nokey (env : Env) (ck : Checker) (tok : Option Bytes) (h : (
   rw [this] at hname
   cases hname
   exact hs
+
+/-- **Builder with a key** — given by setkey or by its callback, with or without an explicit
+algorithm: `generate` either fails or returns a token whose header `alg` names an algorithm other
+than `none` (the pinned one) and whose third segment is the base64url of the signature the primitive
+returned (non-empty whenever that signature is). It never falls back to an unsigned token. -/
+theorem C03_builder_key (env : Env) (b : Builder) (t : Bytes) (k : KeyItem) (h : (generate env b).2 = some t)
+    (hk : (genAfterCb b.cfg env.now).2.2.2.key = some k) :
+    usedAlg (genAfterCb b.cfg env.now).2.2.2 ≠ .none ∧
+    usedAlg (genAfterCb b.cfg env.now).2.2.2 = pinned (genAfterCb b.cfg env.now).2.2.2 ∧
+    ∃ H sig tr, headSetup (genAfterCb b.cfg env.now).2.1 (usedAlg (genAfterCb b.cfg env.now).2.2.2) = .ok H ∧
+      sign env k (usedAlg (genAfterCb b.cfg env.now).2.2.2)
+        (signingInput (Base64.uriEncode (env.jc.dump H)) (Base64.uriEncode (env.jc.dump (genAfterCb b.cfg env.now).2.2.1))) = (.ok sig, tr) ∧
+      t = signingInput (Base64.uriEncode (env.jc.dump H)) (Base64.uriEncode (env.jc.dump (genAfterCb b.cfg env.now).2.2.1)) ++ [46] ++ Base64.uriEncode sig := by
+  obtain ⟨tr, hg⟩ := generate_some env b t h
+  obtain ⟨_, _, _, hadm, _⟩ := generateCore_ok env b.cfg (some t) tr hg
+  -- with a key admitted, the algorithm in use is the pinned one and not `none`
+  have hne : usedAlg (genAfterCb b.cfg env.now).2.2.2 ≠ .none := by
+    intro e
+    rw [e, hk] at hadm
+    unfold usedAlg at e
+    rw [hk] at e
+    by_cases ha : (genAfterCb b.cfg env.now).2.2.2.alg = .none
+    · simp only [ha, if_true] at e
+      by_cases hp : k.isPrivate = true <;> simp [setkeyCheck, setkeyCheck.setkeyTable, hp, e] at hadm
+    · simp [ha] at e
+  have hpin : usedAlg (genAfterCb b.cfg env.now).2.2.2 = pinned (genAfterCb b.cfg env.now).2.2.2 := by
+    unfold usedAlg pinned
+    by_cases ha : (genAfterCb b.cfg env.now).2.2.2.alg = .none <;> simp [ha] <;> rfl
+  refine ⟨hne, hpin, ?_⟩
+  obtain ⟨H, P, hH, hP, _, _, _, _, hcase⟩ := Props.C10.C10_shape env b t h
+  subst hP
+  rcases hcase with ⟨hn, _⟩ | ⟨_, k', sig, tr', hk', hs, ht⟩
+  · exact absurd hn hne
+  · rw [hk] at hk'; cases hk'
+    exact ⟨H, sig, tr', hH, hs, ht⟩
+
+/-- **Builder without a key**: the only tokens it emits are `alg: none` tokens ending in an empty
+third segment. -/
+theorem C03_builder_nokey (env : Env) (b : Builder) (t : Bytes) (h : (generate env b).2 = some t)
+    (hk : (genAfterCb b.cfg env.now).2.2.2.key = none) :
+    usedAlg (genAfterCb b.cfg env.now).2.2.2 = .none ∧
+    ∃ H, headSetup (genAfterCb b.cfg env.now).2.1 .none = .ok H ∧
+      t = signingInput (Base64.uriEncode (env.jc.dump H)) (Base64.uriEncode (env.jc.dump (genAfterCb b.cfg env.now).2.2.1)) ++ [46] := by
+  obtain ⟨tr, hg⟩ := generate_some env b t h
+  obtain ⟨_, _, _, hadm, _⟩ := generateCore_ok env b.cfg (some t) tr hg
+  have hn : usedAlg (genAfterCb b.cfg env.now).2.2.2 = .none := by
+    rw [hk] at hadm
+    by_cases e : usedAlg (genAfterCb b.cfg env.now).2.2.2 = .none
+    · exact e
+    · simp [setkeyCheck, setkeyCheck.setkeyTable, e] at hadm
+  refine ⟨hn, ?_⟩
+  obtain ⟨H, P, hH, hP, _, _, _, _, hcase⟩ := Props.C10.C10_shape env b t h
+  subst hP
+  rcases hcase with ⟨_, ht⟩ | ⟨hne, _⟩
+  · rw [hn] at hH; exact ⟨H, hH, ht⟩
+  · exact absurd hn hne
 
 /-! ### non-vacuity -/
 -- a keyless, alg-less configuration accepts an unsigned `none` token at the policy level …
